@@ -16,6 +16,8 @@ import time
 VERIF = os.path.dirname(os.path.dirname(os.path.abspath(__file__)))
 REPO = os.environ.get('SA_REPO', '/repo')
 KNOWN = os.path.join(VERIF, 'known_findings.json')
+# where violation records and evidence go (the seeded-change matrix runs several trees side by side)
+OUTBASE = os.environ.get('SA_OUT', VERIF)
 
 
 class AnalysisError(Exception):
@@ -134,7 +136,7 @@ class Report:
                 used.add(id(ent))
             else:
                 viol.append(f)
-        outdir = os.path.join(VERIF, 'out', self.pid)
+        outdir = os.path.join(OUTBASE, 'out', self.pid)
         lines = []
         if viol:
             os.makedirs(outdir, exist_ok=True)
@@ -199,8 +201,8 @@ class Report:
             'wall_s': round(wall, 2),
             'violations': len(viol),
         }
-        os.makedirs(os.path.join(VERIF, 'evidence'), exist_ok=True)
-        path = os.path.join(VERIF, 'evidence', '%s.json' % self.pid)
+        os.makedirs(os.path.join(OUTBASE, 'evidence'), exist_ok=True)
+        path = os.path.join(OUTBASE, 'evidence', '%s.json' % self.pid)
         tmp = path + '.tmp'
         with open(tmp, 'w') as fh:
             json.dump(ev, fh, indent=1, default=str)
